@@ -206,38 +206,22 @@ func c13R3(c *engine.Ctx) {
 		return
 	}
 	bits, _ := constInt(c, "crypto", "RSAKeyBits")
-	one := "math/big.NewInt(1)"
-	pm1 := "(*math/big.Int).Sub(math/big.NewInt(0), p:dhPrime, " + one + ")"
-	smin := fmt.Sprintf("(*math/big.Int).Exp(math/big.NewInt(0), math/big.NewInt(2), math/big.NewInt(%d), nil)", bits-64)
-	smax := "(*math/big.Int).Sub(math/big.NewInt(0), p:dhPrime, " + smin + ")"
-	want := map[string]bool{
-		"p:g|" + one + "|" + pm1:    false,
-		"p:gA|" + one + "|" + pm1:   false,
-		"p:gB|" + one + "|" + pm1:   false,
-		"p:gA|" + smin + "|" + smax: false,
-		"p:gB|" + smin + "|" + smax: false,
-	}
 	c.Check(bits == 2048, "C13.R3", "RSAKeyBits", fn.Pos(), "RSAKeyBits = %d (2048 expected: safety margin 2^(2048-64))", bits)
-	for _, r := range engine.SuccessReturns(fn) {
-		for _, g := range engine.Guards(r) {
-			k := g.Cmp()
-			call := isCallTo(k.X, "crypto.InRange")
-			b, isB := engine.ConstBool(k.Y)
-			if call == nil || !isB || !b || k.Op != token.EQL {
-				continue
-			}
-			a := call.Common().Args
-			key := engine.Describe(a[0]) + "|" + engine.Describe(a[1]) + "|" + engine.Describe(a[2])
-			if _, ok := want[key]; ok {
-				want[key] = true
-			}
-		}
+	// decided by class evaluation (bigrange.go): g, g_a, g_b are placed in every
+	// order class relative to the bounds the function uses and the specified ones
+	d := dhParamsEval(c)
+	if d.err != nil {
+		c.Undecided("C13.R3", "CheckDHParams/classes", fn.Pos(), "class evaluation of CheckDHParams failed: %v", d.err)
+		return
 	}
-	names := []string{"g in (1,p-1)", "g_a in (1,p-1)", "g_b in (1,p-1)", "g_a in (2^1984, p-2^1984)", "g_b in (2^1984, p-2^1984)"}
-	keys := []string{"p:g|" + one + "|" + pm1, "p:gA|" + one + "|" + pm1, "p:gB|" + one + "|" + pm1, "p:gA|" + smin + "|" + smax, "p:gB|" + smin + "|" + smax}
-	for i, k := range keys {
-		c.Check(want[k], "C13.R3", "CheckDHParams/"+names[i], fn.Pos(), "the accepting path must pass InRange for %s", names[i])
+	c.Extra["classes_checkdhparams"] = d.t.Runs
+	for _, r := range d.ranges {
+		cls := d.acceptedOutside(r)
+		c.Check(cls == "", "C13.R3", "CheckDHParams/"+r.name, fn.Pos(), "CheckDHParams must refuse every value outside %s; it accepts the class: %s", r.name, cls)
 	}
+	cls := d.rejectedInside()
+	c.Check(cls == "", "C13.R3", "CheckDHParams/accepts-every-value-inside", fn.Pos(), "CheckDHParams must accept values strictly inside all ranges; it refuses the class: %s", cls)
+	c.Floor("C13.R3", 729, d.t.Runs)
 }
 
 func c13R4(c *engine.Ctx) {
